@@ -1,10 +1,19 @@
 import VOPyVerif.Proofs.Pareto
+import VOPyVerif.Proofs.ParetoDominates
 /-!
 # C13 — Pareto-set extraction is exact for every finite set and cone
 
-Property theorems only (helper lemmas live in `Proofs/Pareto.lean`).  They are about the
-executable model `Pareto.fast` / `Pareto.naive` that the driver runs against
+Property theorems only (helper lemmas live in `Proofs/Pareto.lean`, `Proofs/ParetoDominates.lean`).
+They are about the executable model `Pareto.fast` / `Pareto.naive` and the decidable relations
+`Pareto.specOk` / `Pareto.naiveSpecOk` that the driver runs against
 `PolyhedralConeOrder.get_pareto_set(_naive)`.
+
+* `fast_spec`, `fast_indices`, `specOk_fast`, `specOk_sound` — the fast routine, any preorder.
+* `naive_mem_iff`, `naive_copies`, `naive_cover`, `naive_values_eq_fast`, `naiveSpecOk_naive` — the
+  naive routine with `eqv` = equality and a partial order (pointed cone).
+* `dominates_fast_spec`, `dominates_specOk_fast`, `dominates_naive` — the same statements for the
+  relation the driver actually uses, `VOPy.dominates W` for *any* matrix `W`, on lists of vectors of
+  one common length (there `dominates W` is reflexive and transitive).
 -/
 namespace VOPy.C13
 open VOPy VOPy.Pareto
@@ -24,24 +33,163 @@ theorem fast_spec (dom : α → α → Bool)
     R.Sublist (indexed xs) ∧
     (∀ e ∈ R, ∀ f ∈ R, e ≠ f → dom e.2 f.2 = false) ∧
     (∀ x ∈ xs, ∃ f ∈ R, dom f.2 x = true) ∧
-    (∀ e ∈ R, ∀ x ∈ xs, dom x e.2 = true → dom e.2 x = true) := by
-  have h := loop_spec dom hrefl htrans (indexed xs)
-  have hmem : ∀ x ∈ xs, ∃ p ∈ indexed xs, p.2 = x := by
-    intro x hx
-    obtain ⟨i, hi, rfl⟩ := List.getElem_of_mem hx
-    refine ⟨(i, xs[i]), ?_, rfl⟩
-    simp only [indexed, List.mem_map, Prod.mk.injEq]
-    exact ⟨(xs[i], i), by simp [List.mem_zipIdx_iff_getElem?, hi], rfl, rfl⟩
-  refine ⟨h.1, h.2.1, ?_, ?_⟩
-  · intro x hx
-    obtain ⟨p, hp, rfl⟩ := hmem x hx
-    exact h.2.2.1 p hp
-  · intro e he x hx hxe
-    obtain ⟨p, hp, rfl⟩ := hmem x hx
-    exact h.2.2.2 e he p hp hxe
+    (∀ e ∈ R, ∀ x ∈ xs, dom x e.2 = true → dom e.2 x = true) :=
+  fast_pairs_on dom xs (PreorderOn.of_global hrefl htrans xs)
 
 /-- non-vacuity: the six-point example of the design notes under the componentwise order -/
 example : fast (dominates (identMat 2)) [[1,2],[2,1],[0,0],[2,1],[3,0],[1,1]] = [0,1,4] := by
+  decide +kernel
+
+/-- **Returned indices** (no hypothesis on the relation at all): the index list of the fast routine
+is strictly increasing — hence duplicate-free — and every entry is a valid position of the input. -/
+theorem fast_indices (dom : α → α → Bool) (xs : List α) :
+    (fast dom xs).Pairwise (· < ·) ∧ ∀ i ∈ fast dom xs, i < xs.length :=
+  ⟨List.Pairwise.sublist (fast_sublist_range dom xs) List.pairwise_lt_range,
+   fun _ hi => List.mem_range.mp ((fast_sublist_range dom xs).subset hi)⟩
+
+/-- **The model satisfies the relation (R) the harness evaluates on the implementation's output.**
+For a reflexive transitive relation `specOk dom xs (fast dom xs)` is `true`. -/
+theorem specOk_fast (dom : α → α → Bool)
+    (hrefl : ∀ a, dom a a = true)
+    (htrans : ∀ a b c, dom a b = true → dom b c = true → dom a c = true)
+    (xs : List α) : specOk dom xs (fast dom xs) = true :=
+  (specOk_iff dom xs _).mpr (fast_isParetoIdx_on dom xs (PreorderOn.of_global hrefl htrans xs))
+
+/-- **Soundness of the decidable relation (R).**  Whenever `specOk dom xs idx` evaluates to `true`
+(for *any* index list, e.g. the one returned by the Python code) the Prop-level Pareto
+specification holds: indices valid and strictly increasing; kept elements pairwise unrelated;
+every input dominated by a kept element; no kept element strictly dominated by an input.
+(The converse holds as well: `Pareto.specOk_iff`.) -/
+theorem specOk_sound (dom : α → α → Bool) (xs : List α) (idx : List Nat)
+    (h : specOk dom xs idx = true) :
+    (∀ i ∈ idx, i < xs.length) ∧
+    idx.Pairwise (· < ·) ∧
+    (∀ i ∈ idx, ∀ j ∈ idx, i ≠ j → ∀ a b, xs[i]? = some a → xs[j]? = some b → dom a b = false) ∧
+    (∀ x ∈ xs, ∃ i ∈ idx, ∃ a, xs[i]? = some a ∧ dom a x = true) ∧
+    (∀ i ∈ idx, ∀ a, xs[i]? = some a → ∀ x ∈ xs, dom x a = true → dom a x = true) := by
+  have := (specOk_iff dom xs idx).mp h
+  exact ⟨this.valid, this.incr, this.anti, this.cover, this.maximal⟩
+
+example : specOk (dominates (identMat 2)) [[1,2],[2,1],[0,0],[2,1],[3,0],[1,1]] [0,1,4] = true := by
+  decide +kernel
+/-- the relation is not trivially true: keeping the duplicate `[2,1]` twice is rejected -/
+example : specOk (dominates (identMat 2)) [[1,2],[2,1],[0,0],[2,1],[3,0],[1,1]] [0,1,3,4] = false := by
+  decide +kernel
+
+/-! ### the naive routine (`eqv` = equality, partial order = pointed cone) -/
+
+/-- **Naive routine: kept ⇔ not dominated by a different value.**  With `eqv` deciding equality,
+index `i` is returned iff it is a valid position and no input element of a *different* value
+dominates `xs[i]` (no hypothesis on `dom`). -/
+theorem naive_mem_iff (eqv dom : α → α → Bool) (heqv : ∀ a b, eqv a b = true ↔ a = b)
+    (xs : List α) (i : Nat) :
+    i ∈ naive eqv dom xs ↔ ∃ a, xs[i]? = some a ∧ ∀ o ∈ xs, o ≠ a → dom o a = false := by
+  rw [mem_naive_iff]
+  constructor
+  · rintro ⟨a, ha, hk⟩
+    refine ⟨a, ha, fun o ho hne => hk o ho ?_⟩
+    cases hq : eqv a o with
+    | false => rfl
+    | true => exact absurd ((heqv _ _).mp hq).symm hne
+  · rintro ⟨a, ha, hk⟩
+    refine ⟨a, ha, fun o ho hq => hk o ho ?_⟩
+    intro hoa
+    rw [hoa, (heqv a a).mpr rfl] at hq
+    exact absurd hq (by simp)
+
+/-- **All copies of a kept value are kept** by the naive routine, and its index list is strictly
+increasing with valid entries. -/
+theorem naive_copies (eqv dom : α → α → Bool) (xs : List α) :
+    (∀ i ∈ naive eqv dom xs, ∀ j a, xs[i]? = some a → xs[j]? = some a → j ∈ naive eqv dom xs) ∧
+    (naive eqv dom xs).Pairwise (· < ·) ∧ ∀ i ∈ naive eqv dom xs, i < xs.length := by
+  refine ⟨?_, List.Pairwise.sublist (naive_sublist_range eqv dom xs) List.pairwise_lt_range,
+    fun _ hi => List.mem_range.mp ((naive_sublist_range eqv dom xs).subset hi)⟩
+  intro i hi j a hia hja
+  rw [mem_naive_iff] at hi ⊢
+  obtain ⟨b, hb, hk⟩ := hi
+  rw [hia] at hb
+  rw [← Option.some.inj hb] at hk
+  exact ⟨a, hja, hk⟩
+
+/-- **Covering for the naive routine** (finite maximality): for a reflexive, transitive,
+antisymmetric relation (a pointed cone) every input is dominated by an element the naive routine
+keeps. -/
+theorem naive_cover (eqv dom : α → α → Bool) (heqv : ∀ a b, eqv a b = true ↔ a = b)
+    (hrefl : ∀ a, dom a a = true)
+    (htrans : ∀ a b c, dom a b = true → dom b c = true → dom a c = true)
+    (hanti : ∀ a b, dom a b = true → dom b a = true → a = b)
+    (xs : List α) :
+    ∀ x ∈ xs, ∃ i ∈ naive eqv dom xs, ∃ a, xs[i]? = some a ∧ dom a x = true :=
+  naive_cover_on eqv dom xs heqv (PreorderOn.of_global hrefl htrans xs)
+    (fun a _ b _ => hanti a b)
+
+/-- **Naive and fast keep the same values** for a partial order: a value occurs among the elements
+kept by `naive` iff it occurs among those kept by `fast` (naive keeps all its copies, fast one). -/
+theorem naive_values_eq_fast (eqv dom : α → α → Bool) (heqv : ∀ a b, eqv a b = true ↔ a = b)
+    (hrefl : ∀ a, dom a a = true)
+    (htrans : ∀ a b c, dom a b = true → dom b c = true → dom a c = true)
+    (hanti : ∀ a b, dom a b = true → dom b a = true → a = b)
+    (xs : List α) (v : α) :
+    (∃ i ∈ naive eqv dom xs, xs[i]? = some v) ↔ (∃ i ∈ fast dom xs, xs[i]? = some v) :=
+  naive_values_eq_fast_on eqv dom xs heqv (PreorderOn.of_global hrefl htrans xs)
+    (fun a _ b _ => hanti a b) v
+
+/-- **The naive model satisfies its relation** `naiveSpecOk` (any `eqv`, any `dom`): this is the
+relation the harness evaluates on `get_pareto_set_naive`'s output. -/
+theorem naiveSpecOk_naive (eqv dom : α → α → Bool) (xs : List α) :
+    naiveSpecOk eqv dom xs (naive eqv dom xs) = true :=
+  Pareto.naiveSpecOk_naive eqv dom xs
+
+example : naive (fun a b => decide (a = b)) (dominates (identMat 2))
+    [[1,2],[2,1],[0,0],[2,1],[3,0],[1,1]] = [0,1,3,4] := by
+  decide +kernel
+
+/-! ### instantiation at the cone order `VOPy.dominates W` the driver runs -/
+
+/-- **`dominates W` is a preorder on vectors of one length**: reflexive for all vectors, transitive
+for vectors of equal length — for any matrix `W` (any number of facets, `K > m` included). -/
+theorem dominates_preorder (W : Mat) :
+    (∀ a, dominates W a a = true) ∧
+    (∀ a b c : Vec, a.length = b.length → b.length = c.length →
+      dominates W a b = true → dominates W b c = true → dominates W a c = true) :=
+  ⟨dominates_refl W, dominates_trans W⟩
+
+/-- **Fast routine under a polyhedral cone order.**  For any cone matrix `W` and any finite list of
+vectors of one common length `m`, `Pareto.fast (dominates W)` — exactly the function the driver
+evaluates — returns valid, strictly increasing indices of pairwise non-dominating vectors such that
+every input is dominated by a kept vector and no kept vector is strictly dominated. -/
+theorem dominates_fast_spec (W : Mat) (m : Nat) (xs : List Vec) (hlen : ∀ x ∈ xs, x.length = m) :
+    let idx := fast (dominates W) xs
+    (∀ i ∈ idx, i < xs.length) ∧
+    idx.Pairwise (· < ·) ∧
+    (∀ i ∈ idx, ∀ j ∈ idx, i ≠ j → ∀ a b, xs[i]? = some a → xs[j]? = some b →
+      dominates W a b = false) ∧
+    (∀ x ∈ xs, ∃ i ∈ idx, ∃ a, xs[i]? = some a ∧ dominates W a x = true) ∧
+    (∀ i ∈ idx, ∀ a, xs[i]? = some a → ∀ x ∈ xs, dominates W x a = true →
+      dominates W a x = true) := by
+  have := fast_isParetoIdx_on (dominates W) xs (dominates_preorderOn W m xs hlen)
+  exact ⟨this.valid, this.incr, this.anti, this.cover, this.maximal⟩
+
+/-- the relation (R) holds for the model under every cone order -/
+theorem dominates_specOk_fast (W : Mat) (m : Nat) (xs : List Vec)
+    (hlen : ∀ x ∈ xs, x.length = m) : specOk (dominates W) xs (fast (dominates W) xs) = true :=
+  (specOk_iff _ xs _).mpr (fast_isParetoIdx_on _ xs (dominates_preorderOn W m xs hlen))
+
+/-- **Naive routine under a pointed polyhedral cone order.**  If `dominates W` is antisymmetric on
+the input vectors (pointed cone) and `eqv` decides equality, then every input is dominated by a
+vector the naive routine keeps, and the naive and fast routines keep the same values. -/
+theorem dominates_naive (W : Mat) (m : Nat) (xs : List Vec) (hlen : ∀ x ∈ xs, x.length = m)
+    (eqv : Vec → Vec → Bool) (heqv : ∀ a b, eqv a b = true ↔ a = b)
+    (hpointed : ∀ a ∈ xs, ∀ b ∈ xs, dominates W a b = true → dominates W b a = true → a = b) :
+    (∀ x ∈ xs, ∃ i ∈ naive eqv (dominates W) xs, ∃ a, xs[i]? = some a ∧ dominates W a x = true) ∧
+    (∀ v, (∃ i ∈ naive eqv (dominates W) xs, xs[i]? = some v) ↔
+      (∃ i ∈ fast (dominates W) xs, xs[i]? = some v)) :=
+  ⟨naive_cover_on eqv _ xs heqv (dominates_preorderOn W m xs hlen) hpointed,
+   naive_values_eq_fast_on eqv _ xs heqv (dominates_preorderOn W m xs hlen) hpointed⟩
+
+/-- non-vacuity of the pointedness hypothesis: the componentwise order on a concrete list -/
+example : ∀ a ∈ ([[1,2],[2,1],[0,0],[2,1]] : List Vec), ∀ b ∈ ([[1,2],[2,1],[0,0],[2,1]] : List Vec),
+    dominates (identMat 2) a b = true → dominates (identMat 2) b a = true → a = b := by
   decide +kernel
 
 end VOPy.C13
